@@ -657,12 +657,15 @@ Definition check_loc (c : json) : json :=
   let a := fold_left step_acc (jfL "ops" c) (mkAcc [] sy 0 None None [] [] 0) in
   let ghost_bad := match jget "ghost_ok" c with Some (JBool false) => true | _ => false end in
   let multi_load := 1 <? jfZ "stress_loads" c in
-  let a := if ghost_bad then
+  let a := if ghost_bad || multi_load then
              mkAcc (a_reg a) (a_sys a) (a_k a) (a_diff a)
-                   (match a_spec a with Some x => Some x | None => Some (a_k a, "existence-check") end)
+                   (match a_spec a with
+                    | Some x => Some x
+                    | None => Some (a_k a, if ghost_bad then "existence-check" else "single-load")
+                    end)
                    (a_kf a) (a_feats a) (a_amb a)
            else a in
-  let kf := dedup_str ((if multi_load then ["D41"] else []) ++ a_kf a)%list in
+  let kf := dedup_str (a_kf a) in
   JObj [("ok", JBool (match a_diff a with None => true | Some _ => false end));
         ("at", match a_diff a with Some (k, _, _) => JNum k | None => JNull end);
         ("why", JStr (match a_diff a with Some (_, w, _) => String.append "model and implementation differ at op " w | None => "" end));
